@@ -209,12 +209,19 @@ var kinds = []*kind{
 		// variant 0: with validator index (what the local VC path produces), 1: without (what older peers
 		// send), 2: without, and a slot whose low 32 bits are 20 (the two SSZ layouts of this type are told
 		// apart by a 4-byte word that is the offset 20 in one layout and the low half of the slot in the other).
-		Name: "VersionedAttestation", Signed: true, Duty: core.DutyAttester, Versioned: true, Variants: 3,
+		// 3: with a validator index whose low 32 bits are 12 or 20 - the 4-byte word that is the first offset
+		// in the other (12) or in this (20) layout, so a decoder that probes the word instead of decoding
+		// mistakes one layout for the other (seeded change C14-r8).
+		Name: "VersionedAttestation", Signed: true, Duty: core.DutyAttester, Versioned: true, Variants: 4,
 		New: func(g *gen, ver eth2spec.DataVersion, _ bool, variant int) any {
 			a := core.VersionedAttestation{VersionedAttestation: eth2spec.VersionedAttestation{Version: ver}}
 			g.fill(core.VersionedSSZValueForT(g.t, &a, dv(g.t, ver)))
 			if variant == 0 {
 				idx := eth2p0.ValidatorIndex(g.u64())
+				a.ValidatorIndex = &idx
+			}
+			if variant == 3 {
+				idx := eth2p0.ValidatorIndex([]uint64{12, 1<<32 + 12, 0xffffffff<<32 + 12, 20, 5<<32 + 20, 12}[g.rng.Intn(6)])
 				a.ValidatorIndex = &idx
 			}
 			if variant == 2 {
